@@ -228,7 +228,11 @@ def run(tier: str, seed: int) -> int:
                 rep.violation(f"[{tname}] allocation from {nc.net_ip} never reports exhaustion", {"topology": tname}, {"part": "alloc", "what": "no exhaustion"})
             except IndexError:
                 pass
-            exp = [str(ipaddress.ip_address(nc.net_ip) + i) for i in sorted(nc.range)]
+            # the configured pool "A-B" is inclusive on both ends (every address of the configured range), read from the input not from the object
+            conf = ranges.get(str(ipaddress.ip_network(f"{nc.net_ip}/{nc.mask_bit}", strict=False)), "100-200")
+            a_, b_ = (int(x) for x in conf.split("-"))
+            taken = {int(ipaddress.ip_address(i.ip)) - int(ipaddress.ip_address(nc.net_ip)) for i in nc.interfaces.values()}
+            exp = [str(ipaddress.ip_address(nc.net_ip) + i) for i in range(a_, b_ + 1) if i not in taken]
             total_trans += len(got) + 1
             if got != exp:
                 rep.violation(f"[{tname}] allocation from {nc.net_ip} handed out {got}, expected {exp}", {"topology": tname, "got": got, "expected": exp}, {"part": "alloc", "what": "wrong addresses"})
